@@ -152,11 +152,31 @@ pub fn run(mut rep: Report) -> i32 {
         }
     };
     let variants: &[Variant] = if thorough { &[Variant::KeepHandle, Variant::DropAgain, Variant::DropSubscription] } else { &[Variant::KeepHandle, Variant::DropAgain] };
+    let mut retries = 0u64;
     for &variant in variants {
         for b in 0..=bound {
             let before = rep.violation_count();
             let mut outs = vec![];
-            let stats = dfs(&DfsCfg { max_dev: b, wall: Duration::from_secs(if thorough { 900 } else { 120 }), ..Default::default() }, |ch| execute(ch, &rt, variant), |ch, r| outs.push((ch.vector(), ch.deviations(), r)));
+            let stats = dfs(
+                &DfsCfg { max_dev: b, wall: Duration::from_secs(if thorough { 900 } else { 120 }), ..Default::default() },
+                |ch| {
+                    // The actor threads are outside the scheduler: when the machine is so loaded
+                    // that an actor misses the idle window, the run cannot follow its recorded
+                    // prefix.  Such a run is repeated (never judged); only a prefix that cannot be
+                    // followed three times in a row is a machinery error.
+                    let mut r = execute(ch, &rt, variant);
+                    for _ in 0..3 {
+                        if !ch.off_prefix() {
+                            break;
+                        }
+                        retries += 1;
+                        ch.reset();
+                        r = execute(ch, &rt, variant);
+                    }
+                    r
+                },
+                |ch, r| outs.push((ch.vector(), ch.deviations(), r)),
+            );
             rep.absorb_dfs(&format!("{variant:?}/preemptions<={b}"), &stats, b);
             for (vector, devs, (run, obs)) in outs {
                 if devs < b {
@@ -217,6 +237,7 @@ pub fn run(mut rep: Report) -> i32 {
         }
     }
     rep.set("preemption_bound", json!(bound));
+    rep.set("runs_repeated_because_an_actor_missed_the_idle_window", json!(retries));
     rep.assume("actor threads (gossip manager, sessions, endpoint) are not scheduled by the explorer; their wake-ups only take effect when no explored thread can run, and the verdict is read after an RPC round trip that drains the manager's mailbox");
     rep.assume("harness time-outs (20 s without any wake-up) are reported as deadlock of the explored threads");
     rep.finish()
